@@ -96,10 +96,12 @@ def handle : Handler
   -- Propagation.fit
   | "c13.prop", [n, m, ip, ix, dt, v, r, c, w, nit, sg] => some <| Option.getD (do
       let rt ← routed? n m ip ix dt "0" v r c
-      let a : Vote.PropArgs := { weighted := ← bool? w, nIter := ← optNat? nit, sigma := ← optNatList? sg }
+      let a0 : Vote.PropArgs := { weighted := ← bool? w, nIter := ← optNat? nit, sigma := ← optNatList? sg }
       match rt with
       | .error e => some (showErr e)
       | .ok rt =>
+        -- a negative n_iter (`_`) allows n + 1 sweeps, n the number of nodes of the routed adjacency
+        let a := { a0 with nIter := some (Vote.sweepLimit a0.nIter rt.values.length) }
         match Vote.fit rt.adj rt.values a fuelDefault with
         | none => some "fuel"
         | some (l, t) =>
